@@ -375,6 +375,13 @@ func runC13(p *core.Prog, r *core.Report, tier string) {
 		}
 	}
 
+	// (g) the validators manager's three maps are read as one consistent set: every access holds validatorsMutex (a
+	// refresh swaps all three in one critical section; a reader that lets go of the lock between two of them pairs a
+	// validator of the old set with an index of the new one)
+	nVM := checkFieldsUnderMutex(p, r, core.NewLockAnalysis(p), "C13.g", "services/validatorsmanager/standard", []string{"validatorsByIndex", "validatorsByPubKey", "validatorPubKeyToIndex"}, "validatorsMutex",
+		"a refresh between this access and the others makes the lookup mix two validator sets (an account reported under another validator's index, or under index 0)")
+	r.Floor("C13.g accesses to the validators manager's maps", nVM, 6)
+
 	// IsSyncCommitteeEligible
 	if f := p.Func("services/accountmanager/utils", "", "IsSyncCommitteeEligible"); f != nil {
 		evalPredicate(f, syncEligibleStates, "utils.IsSyncCommitteeEligible", p.Pos(f.Pos()))
